@@ -562,7 +562,7 @@ def gen_session(rng, n_calls):
     names_by_args = sorted(OPS)
     if special_dfa is not None:
         # make sure the unusual object is actually enumerated
-        steps.append({'op': 'dfa_words_up_to_n', 'args': [special_dfa], 'params': {'n': rng.randint(2, 4)}})
+        steps.append({'op': 'dfa_words_up_to_n', 'args': [special_dfa], 'params': {'n': rng.randint(4, 5)}})   # two sequences of 3 symbols spell the same word
         steps.append({'op': 'generate_language_dfa', 'args': [special_dfa], 'params': {'n': 2}})
     while sum(1 for s in steps if s['op'] not in ('make', 'edit')) < n_calls:
         if rng.random() < 0.05:
